@@ -1,5 +1,5 @@
 """C03 - lead-time exactness, exact on-order."""
-import simlib, simstream
+import simlib, simstream, mplib
 TRUSTED = ["exact regime; single-product networks only at network level"]
 FIELDS = ['oq', 'io', 'iopl', 'os', 'is', 'ispl', 'idi', 'oo', 'bo', 'odi', 'disrupted']
 THEOREM = 'Props/C03.list (on_order_exact_period, on_order_exact_ext, orders_arrive, shiftPipe_get)'
@@ -15,6 +15,12 @@ def run(rep, drv):
 	simstream.run_stream(rep, drv, 'sim-trace', 2500 if th else 250, FIELDS, oracle, THEOREM, th, seed_off=3)
 	# tracer: one marked order in an otherwise quiet history must be received exactly olt + slt periods later
 	simstream.run_stream(rep, drv, 'sim-trace-nodisruption', 600 if th else 60, FIELDS, oracle, THEOREM, th, force={'pdis': 0.0}, seed_off=33)
+	mplib.run_mp_stream(rep, drv, 'C03', THEOREM + ' + Props/MP (rm_conservation, rm_never_negative)', 400 if th else 50, th, seed_off=13)
+
+def replay_mp(rep, drv, doc):
+	mplib.mp_case(rep, drv, doc['case'], 'C03', THEOREM)
 
 def replay(rep, drv, doc):
+	if doc['stream'] == 'mp-kernels':
+		return replay_mp(rep, drv, doc)
 	simstream.one_case(rep, drv, doc['stream'], doc['case'], FIELDS, oracle, THEOREM)
